@@ -113,7 +113,8 @@ class C17(object):
                          'reparse.second_block_is_scenario_with_same_names_and_horizon',
                          'reparse.warning_raised_as_error',
                          'reparse.fallback_after_failed_search',
-                         'reparse.second_block_is_empty')
+                         'reparse.second_block_is_empty',
+                         'history.same_text_and_options_solved_with_other_callables_under_the_same_names')
 
     def n_cases(self, tier):
         return 32 if tier == 'quick' else 1200
@@ -198,7 +199,15 @@ class C17(object):
             # target's own variables), and the target itself is re-solved
             hist.insert(rng.randint(0, len(hist)), {'op': 'other_solver_excludes', 'name': 'SIM', 'maxtime': 1})
             settings['resolves'] = max(1, settings['resolves'])
-        if target.get('funcs') and rng.random() < 0.7:
+        if idx % 8 == 5 and (idx // 8) % 2 == 0:
+            # the target uses user functions AND the steady-state option; earlier in the process another solver was given exactly
+            # the same text and the same options but OTHER callables under the same names
+            target = {'type': 'block', 'reduction': rng.random() < 0.5, 'steady': True, 'funcs': True,
+                      'text': 'u = half(u) + %r\nw = damp(u, LAG_w)\nLAG_w = w(k-1)\nz = 0.5*LAG_w + g\nw(0) = %r\nMaxTime = %d\nexogenous\ng = [%r]*9'
+                              % (rng.choice([1.0, 2.5]), rng.choice([0.0, 3.0]), rng.randint(2, 6), float(rng.randint(1, 9)))}
+            hist.insert(rng.randint(0, len(hist)), {'op': 'same_text_other_functions', 'name': 'SIM', 'maxtime': 1})
+            settings['trace'] = None
+        if target.get('funcs') and rng.random() < 0.7 and not (idx % 8 == 5 and (idx // 8) % 2 == 0):
             settings['trace'] = 1
         return {'kind': 'history', 'target': target, 'history': hist, 'settings': settings}
 
@@ -261,6 +270,16 @@ class C17(object):
                             pass
                     rival()              # before the target is configured ...
                     hooks.append(rival)  # ... and again between its configuration and its solve
+                elif op['op'] == 'same_text_other_functions':
+                    o = EquationSolver(run_equation_reduction=target.get('reduction', True))
+                    o.MaxIterations = 4000
+                    o.AddFunction('half', lambda v: 0.25 * v + 3.0)
+                    o.AddFunction('damp', lambda a, b: 0.2 * a + 0.1 * b + 1.0)
+                    o.ParameterSolveInitialSteadyState = True
+                    o.ParameterInitialSteadyStateMaxTime = 60
+                    o.ParseString(target['text'])
+                    o.SolveEquation()
+                    rec.count('history.same_text_and_options_solved_with_other_callables_under_the_same_names')
                 elif op['op'] == 'other_solver_excludes':
                     import re as _re
                     names = _re.findall(r'(?m)^\s*([A-Za-z_]\w*)\s*=', target.get('text', 'x = 1'))
